@@ -258,6 +258,60 @@ pub fn run(args: &[String]) -> i32 {
         o["id"] = r["id"].clone();
         w.put(&o);
     }
+    w.put(&concurrent_round_trips());
     w.finish();
     0
+}
+
+#[derive(Debug, Clone, PartialEq, Serialize, Deserialize)]
+struct Nest {
+    v: u8,
+    next: Option<Box<Nest>>,
+}
+
+/// the round trip of a value does not depend on what other threads convert at the same time: eight threads take a 60-level
+/// value (and a flat one) through to_bytes / from_bytes 300 times each, all at once; alone, the same value round-trips
+fn concurrent_round_trips() -> Value {
+    let mut deep = Nest { v: 0, next: None };
+    for i in 1..60u8 {
+        deep = Nest { v: i, next: Some(Box::new(deep)) };
+    }
+    let flat: Vec<i64> = (0..50).collect();
+    let alone = catch(|| erltf_serde::to_bytes(&deep).ok().and_then(|b| erltf_serde::from_bytes::<Nest>(&b).ok()) == Some(deep.clone())).unwrap_or(false);
+    let bytes_deep = erltf_serde::to_bytes(&deep).unwrap_or_default();
+    let bytes_flat = erltf_serde::to_bytes(&flat).unwrap_or_default();
+    let start = std::sync::Arc::new(std::sync::Barrier::new(8));
+    let hs: Vec<_> = (0..8).map(|_| {
+        let (bd, bf, d, f, st) = (bytes_deep.clone(), bytes_flat.clone(), deep.clone(), flat.clone(), start.clone());
+        std::thread::spawn(move || {
+            st.wait();
+            let mut bad = Vec::new();
+            for i in 0..300 {
+                match catch(|| erltf_serde::from_bytes::<Nest>(&bd)) {
+                    Ok(Ok(x)) if x == d => {}
+                    Ok(Ok(_)) => bad.push(format!("deep value came back different (iteration {i})")),
+                    Ok(Err(e)) => bad.push(format!("deep value: {e:?}")),
+                    Err(p) => bad.push(format!("deep value: panic {p}")),
+                }
+                match catch(|| erltf_serde::from_bytes::<Vec<i64>>(&bf)) {
+                    Ok(Ok(x)) if x == f => {}
+                    Ok(Ok(_)) => bad.push(format!("flat value came back different (iteration {i})")),
+                    Ok(Err(e)) => bad.push(format!("flat value: {e:?}")),
+                    Err(p) => bad.push(format!("flat value: panic {p}")),
+                }
+                if catch(|| erltf_serde::to_bytes(&d).ok() == Some(bd.clone())).unwrap_or(false) == false {
+                    bad.push(format!("to_bytes of the deep value gave other bytes (iteration {i})"));
+                }
+            }
+            bad
+        })
+    }).collect();
+    let mut failures: Vec<String> = Vec::new();
+    let mut n = 0usize;
+    for h in hs {
+        let b = h.join().unwrap_or_else(|_| vec!["thread panicked".into()]);
+        n += b.len();
+        failures.extend(b.into_iter().take(3));
+    }
+    json!({"id": "__concurrent__", "round_trips_alone": alone, "threads": 8, "conversions_per_thread": 900, "failures": n, "examples": failures.into_iter().take(6).collect::<Vec<_>>()})
 }
